@@ -185,6 +185,9 @@ class Adapter:
     def lean_cfg(self, cfg):
         return "-"
 
+    def lean_name(self, cfg):
+        return self.lean
+
     def rule_bits(self, rules):
         return "-"
 
@@ -205,11 +208,21 @@ class Adapter:
 class TOAdapter(Adapter):
     name, lean = "TO", "to"
     alt = ("grid_size", 7)
-    cfgs = ("dp-proba", "eo-sticky", "tpr-df")
-    quick_cfgs = ("dp-proba", "eo-sticky")
+    cfgs = ("dp-proba", "eo-sticky", "tpr-df", "prefit")
+    quick_cfgs = ("dp-proba", "eo-sticky", "prefit")
+
+    def lean_name(self, cfg):
+        return "topre" if cfg == "prefit" else "to"
 
     def make(self, cfg):
         from fairlearn.postprocessing import ThresholdOptimizer
+        if cfg == "prefit":
+            # the user's own, already fitted estimator (fitted once, on a data set of its own); sticky: a refit would show
+            base = Stump(sticky=True)
+            d0 = dataset(2, 2)
+            base.fit(d0["X"], d0["y"])
+            return ThresholdOptimizer(estimator=base, constraints="demographic_parity", objective="accuracy_score",
+                                      grid_size=20, prefit=True, predict_method="predict_proba")
         if cfg == "dp-proba":
             return ThresholdOptimizer(estimator=Stump(), constraints="demographic_parity",
                                       objective="accuracy_score", grid_size=20, predict_method="predict_proba")
@@ -321,7 +334,7 @@ class GSAdapter(Adapter):
 
 class EGAdapter(Adapter):
     name, lean = "EG", "eg"
-    alt = ("eps", 0.25)
+    alt = ("max_iter", 5)
     cfgs = ("dp-nuNone", "eo-sticky-nu", "tpr-noLP")
     quick_cfgs = ("dp-nuNone", "eo-sticky-nu")
 
@@ -473,6 +486,12 @@ def params_changed(before, after, same_object):
     return names
 
 
+def nested_fits(est):
+    """how often the object passed as `estimator` has been fitted (the test learners count it)"""
+    b = est.get_params(deep=False).get("estimator")
+    return getattr(b, "n_fits_", None)
+
+
 def nested_state(est):
     """attribute names of the object passed as `estimator` (a mitigator must fit clones, never the user's object)"""
     b = est.get_params(deep=False).get("estimator")
@@ -611,6 +630,7 @@ def run_sequence(ad, cfg, pair, ops, tw=None):
         rec = {"op": op}
         before = est.get_params(deep=False)
         nested_before = nested_state(est)
+        fits_before = nested_fits(est)
         same_object = True
         if op[0] == "f":
             d = ad.data(cfg, pair, int(op[1:]))
@@ -661,6 +681,8 @@ def run_sequence(ad, cfg, pair, ops, tw=None):
         rec["changed"] = params_changed(before, after, same_object)
         if same_object and nested_state(est) != nested_before:
             rec["changed"].append("estimator(mutated)")
+        elif same_object and nested_fits(est) != fits_before:
+            rec["changed"].append("estimator(refitted)")
         if "nu" in rec["changed"]:
             rec["nu_before_none"] = before.get("nu") is None
         keys0 = set(vars(est))
@@ -679,20 +701,30 @@ def run_sequence(ad, cfg, pair, ops, tw=None):
 # ----------------------------------------------------------------------------------------------
 # the specification automaton (oracle), independent of the Lean model
 # ----------------------------------------------------------------------------------------------
-def spec_trace(ops):
-    """expected (res, cls) per operation"""
+def spec_trace(ops, prefit=False):
+    """expected (res, cls) per operation.  prefit=True (ThresholdOptimizer around the user's fitted estimator): sklearn.clone
+    drops the fitted state of the nested estimator, after which fit fails like a fresh one around an unfitted estimator."""
     state = None
+    base_fitted = True
     out = []
+
+    def cls():
+        return "U" if state is None else ("B.AttributeError" if state == "broken" else f"D{state}")
     for op in ops:
         if op[0] == "f":
-            state = int(op[1:])
-            out.append(("self", f"D{state}"))
+            if prefit and not base_fitted:
+                state = "broken"
+                out.append(("raise.AttributeError", cls()))
+            else:
+                state = int(op[1:])
+                out.append(("self", cls()))
         elif op[0] == "p":
-            out.append(("ok" if state is not None else "raise.NotFittedError", "U" if state is None else f"D{state}"))
+            out.append(("ok" if isinstance(state, int) else ("raise.NotFittedError" if state is None else "raise.AttributeError"), cls()))
         elif op == "k":
-            out.append(("ok", "U" if state is None else f"D{state}"))
+            out.append(("ok", cls()))
         else:
             state = None
+            base_fitted = False
             out.append(("ok", "U"))
     return out
 
@@ -717,7 +749,17 @@ class CHECK(Check):
                   "rules in today's source (F5a-F5e). Tie: every call sequence up to length 3 (quick) / 4 (thorough) "
                   "over {fit(D1), fit(D2), predict, pickle, clone} per class x configuration on the real estimators, "
                   "compared operation by operation with the compiled machine under the probed rule vector and with "
-                  "the Python specification automaton. PARTIAL: the machines model latches and attribute presence, "
+                  "the Python specification automaton. SOURCE TIE (harness/lifters/lifecycle.py -> Generated/LifecycleSrc.lean): "
+                  "constructor parameters, self-assignments in the closure of fit / the prediction entry points, return "
+                  "expressions of fit, clone provenance of every object that is .fit()-ed, flow-sensitive history reads of fit, "
+                  "__init__-derived attributes and their parameter dependencies, the moment latch, the three adversarial "
+                  "re-initialisation rules and the prefit branch are lifted from the ast; src_* theorems (decide over the "
+                  "generated finite tables) give params_unchanged / fit_returns_self / predict_pure per class, the EG nu "
+                  "exception and the GridSearch objective_weight exception stay visible as theorems; the machines run under "
+                  "the lifted flags (lifesrc.run) and the lifted flags are cross-checked against the runtime probe. "
+                  "set_params histories (Model/LifecycleParams.lean): fit after set_params(p=v) = fresh(p=v).fit for every "
+                  "history iff fit reads no parameter-derived attribute. prefit=True: the user's estimator is never refitted. "
+                  "PARTIAL: the machines model latches and attribute presence, "
                   "not Python object identity, pickle or clone internals, nor the learned numbers.")
     design_ref = "DESIGN.md section 4 (C19), section 5 (F5a-F5e), section 6 (partial)"
     quick_cases = 1700
@@ -735,7 +777,13 @@ class CHECK(Check):
             "data pairs. distinct = distinct (class, configuration, pair, sequence); non-trivial = at least 2 "
             "operations including a fit. Data: 20 rows, small integer features, binary sensitive feature, both "
             "labels in both groups; base learners are exact stump / one-feature least squares learners, one "
-            "configuration per class wraps a learner whose *object* is history dependent (detects a missing clone).")
+            "configuration per class wraps a learner whose *object* is history dependent (detects a missing clone). "
+            "ThresholdOptimizer additionally with prefit=True around a learner fitted once by the harness (refit counter "
+            "observed). Family set_params: [s,f], [s,c,f], [s,k,f], [x,s,y] with x,y in {f1,f2,c,k} (thorough also [s,x,y]) "
+            "and random length-4 sequences containing s, one configuration per class, s = set_params(<tracked parameter>=<second "
+            "value>) (TO grid_size, CR alpha, GS constraint_weight, EG max_iter, adversarial learning_rate), judged against "
+            "fresh estimators CONSTRUCTED with the second value. After every prediction snapshot the attribute set of the "
+            "estimator must be unchanged.")
     explanation = ("state-machine theorems (all histories) + operation-by-operation correspondence with the real "
                    "estimators; oracle = specification automaton + freshly fitted twins compared by predictions / "
                    "_pmf_predict / weights / transform within 1e-9 (torch 1e-6). The model covers latches and flags "
@@ -744,11 +792,18 @@ class CHECK(Check):
     trusted = ("pickle, sklearn.base.clone, copy.deepcopy are not modelled (see explanation)",
                "a fitted model is represented by what it depends on (data id, nu source, training history), equality of "
                "learned numbers is observed on fixed test inputs only",
-               "rule vector per mechanism is probed by replaying the Lean counter-witnesses on fairlearn "
-               "(harness/props/c19.py probe_rules)",
+               "rule vector per mechanism is lifted from the source text (lifters/lifecycle.py) AND probed by replaying the "
+               "Lean counter-witnesses on fairlearn (probe_rules); a disagreement is reported (C19.static_vs_probe)",
+               "lifted data -> behaviour: rebinding `self.<name>` (assignment, augmented assignment, for/with target, del, "
+               "setattr with a literal name) inside the class's own methods is the only way get_params()[name] changes; the "
+               "callees that receive `self` (sklearn validate_data / check_is_fitted / is_classifier, type, user callbacks, the "
+               "backend engine constructor) do not rebind constructor parameters; calls into other classes are not followed "
+               "except ExponentiatedGradient -> _Lagrangian",
+               "set_params(p=v) is setattr(self, p, v) (sklearn BaseEstimator); clone re-runs __init__ on get_params()",
                "torch is deterministic for a fixed random_state on one thread")
     assumptions = ("adversarial estimators are constructed with warm_start=False and an integer random_state",
-                   "prefit=False for ThresholdOptimizer", "every data set contains all classes and both groups",
+                   "ThresholdOptimizer: prefit=False, and one configuration prefit=True around a learner the harness fitted once (its "
+                   "unfitted clone raises AttributeError from predict_proba)", "every data set contains all classes and both groups",
                    "pickling a set-up adversarial estimator is not claimed by the property (result not judged, state is)")
 
     # ---------------------------------------------------------------- generation
@@ -834,9 +889,10 @@ class CHECK(Check):
         ops = ",".join(case["ops"]) if case["ops"] else "-"
         cfg = ad.lean_cfg(case["cfg"])
         src_cfg = cfg if ad.lean in ("eg", "adv") else "-"
-        return [f"lifecycle.run {ad.lean} {ad.rule_bits(o['rules'])} {cfg} {w} {ops}",
-                f"lifecycle.run {ad.lean} {ad.repaired_bits()} {cfg} {w} {ops}",
-                f"lifesrc.run {ad.lean} {src_cfg} {w} {ops}",
+        ln = ad.lean_name(case["cfg"])
+        return [f"lifecycle.run {ln} {ad.rule_bits(o['rules'])} {cfg} {w} {ops}",
+                f"lifecycle.run {ln} {ad.repaired_bits()} {cfg} {w} {ops}",
+                f"lifesrc.run {ln} {src_cfg} {w} {ops}",
                 "lifesrc.flags"]
 
     # ---------------------------------------------------------------- judging
@@ -850,7 +906,9 @@ class CHECK(Check):
         probs = []
         if not o["twins_distinct"]:
             return [Problem("harness", f"twins of {name}/{cfg} pair {case['pair']} are not distinguishable")]
-        spec = spec_trace(ops)
+        prefit = cfg == "prefit"
+        spec = spec_trace(ops, prefit)
+        base_unfitted = False    # prefit: the nested estimator was cloned (= unfitted) since construction
         widths = ad.widths(cfg)
         tainted = False          # a fit raised: the state the property speaks about is undefined until fit/clone
         fitted_since_clone = []  # data ids fitted (attempted) on this object since construction / clone
@@ -870,7 +928,13 @@ class CHECK(Check):
                 d = int(op[1:])
                 refit = bool(fitted_since_clone)
                 width_change = bool(fitted_since_clone) and widths[fitted_since_clone[-1] - 1] != widths[d - 1]
-                if rec["res"].startswith("raise."):
+                if prefit and base_unfitted:
+                    # like a fresh ThresholdOptimizer(prefit=True) around an unfitted estimator: fit must fail
+                    if not rec["res"].startswith("raise."):
+                        probs.append(mk("correspondence", f"{where}: prefit=True around an unfitted (cloned) estimator: fit gave "
+                                        f"{rec['res']}", "C19.prefit_clone_fit", **base))
+                    tainted = True
+                elif rec["res"].startswith("raise."):
                     probs.append(mk("property", f"{where}: fit raised {rec['res'][6:]}: {rec.get('detail', '')}",
                                     "C19.fit_total", exc=rec["res"][6:], detail=rec.get("detail", ""),
                                     prior_fit=any_fit_before, refit=refit, width_change=width_change, **base))
@@ -913,6 +977,7 @@ class CHECK(Check):
             else:
                 tainted = False
                 fitted_since_clone = []
+                base_unfitted = True
                 if rec["res"] != "ok":
                     probs.append(mk("property", f"{where}: clone failed: {rec['res']}", "C19.clone", what="raise", **base))
                 elif "U" not in rec["cls"]:
